@@ -470,6 +470,12 @@ func (env *Env) call(n *ECall) Val {
 		fld := n.Args[2].(*EIdent).Name
 		a := env.st.heapGet("ghost.ev:"+kind+":"+typeName(t)+":"+fld, ArrSort(SInt))
 		return intVal(Select(a, arg(3).T()))
+	case "serverid":
+		return Val{Typ: types.Typ[types.String], C: []Term{x.uf("serverid", []Sort{SInt}, SInt, arg(0).T())}}
+	case "gaugetotal":
+		nm := n.Args[0].(*EIdent).Name
+		a := env.st.heapGet("ghost.gaugetotal."+nm, ArrSort(SInt))
+		return intVal(Select(a, TZero))
 	case "once_done":
 		p := arg(0)
 		a := env.st.heapGet("once:"+p.prefix(), ArrSort(SBool))
